@@ -455,33 +455,8 @@ def run(res, tier, seed):
         reported += 1
 
     # ---- correspondence -----------------------------------------------------------------------
-    if dis:
-        # prefer a disagreement on which the property itself fails on the implementation's output, and
-        # among those one that fails again when run alone (timing-dependent failures may not)
-        bad = [i for i in dis if not codes[i] & 4]
-        order = sorted(bad or dis, key=lambda i: (0 if 800000 <= cases[i]["id"] < 900000 else 1, len(cases[i]["events"]), i))
-        k, repro = order[0], False
-        for cand in order[:6]:
-            o1, c1 = evaluate([cases[cand]], variant, "confirm")
-            if (c1[0] & 1) and not (c1[0] & 2) and (not bad or not (c1[0] & 4)):
-                k, repro = cand, True
-                break
-        want_oracle = bool(bad)
-        if repro:
-            small = shrink(cases[k], variant, lambda c: _still(c, variant, lambda code, c2, o2: (code & 1) and not (code & 2) and
-                                                               (not want_oracle or not (code & 4))))
-            o2, c2 = evaluate([small], variant, "shrunk")
-            if (c2[0] & 2) or (want_oracle and (c2[0] & 4)):          # not reproduced this time: keep the recorded run
-                small, o2, c2 = cases[k], [obs[k]], [codes[k]]
-        else:
-            small, o2, c2 = cases[k], [obs[k]], [codes[k]]
-        oracle_fails = not (c2[0] & 4)
-        res.violation("model and implementation disagree on a history (%d cases)" % len(dis),
-                      {"kind": "correspondence", "correspondence": TIE_NAME, "case": L.case_to_json(small), "observed": o2[0],
-                       "disagreeing_cases": len(dis), "oracle_fails_on_impl": oracle_fails, "reproduced_alone": repro,
-                       "how_to_replay": "python3 tools/check.py C05 --replay <this file>"},
-                      no_input=not oracle_fails, suffix="corr")
-        reported += 1
+    reported += L.report_disagreements(res, PID, cases, obs, codes, dis, 4, evaluate, lambda c, v, pred: shrink(c, v, pred),
+                                       variant, TIE_NAME, "a history")
 
     if failed and not reported and not res.violations:
         res.violation("proof obligation(s) no longer check: " + "; ".join(r for _, r in failed),
